@@ -68,18 +68,10 @@ func vGenOps(n int) []VSpecOp {
 	return ops
 }
 
-func vGenLen() int {
-	if vThorough() {
-		return 4
-	}
-	return 3
-}
+func vGenLen() int { return 3 }
 
 func VH_GEN_lzma() {
 	pset := []Properties{{3, 0, 2}, {0, 0, 0}, {4, 1, 3}, {2, 2, 1}}
-	if vThorough() {
-		pset = append(pset, Properties{8, 4, 4})
-	}
 	props := pset[vConcretize(int(vNondetU8("props"))%len(pset))]
 	mode := vConcretize(int(vNondetU8("mode")) % 3)
 	n := vConcretize(int(vNondetU8("n")) % (vGenLen() + 1))
@@ -91,6 +83,9 @@ func VH_GEN_lzma() {
 	vAssert(rok && bytes.Equal(ref, content), "reference decoder reads the reference encoder")
 	// the window is max(header, 4096, config): the result must not depend on the configured capacity
 	dictCap := []int{0, 4096, 1 << 16}[(n+mode)%3]
+	if vThorough() {
+		dictCap = []int{0, 4096, 1 << 16}[vConcretize(int(vNondetU8("dictCap"))%3)]
+	}
 	r, err := ReaderConfig{DictCap: dictCap}.NewReader(&vSrc{data: z, end: len(z)})
 	vAssert(err == nil, "valid .lzma stream opens")
 	out, err := vReadAll(r, 300)
